@@ -535,7 +535,9 @@ type HashContext = {
 type Hash256Context = {
   writer: Hash256Writer;
   active: Map<Runtype, number>;
-  nextCycleId: number;
+  // named types that are referenced from inside themselves: only these are numbered (by their depth on the path), so
+  // that the digest does not depend on where non-recursive aliases are introduced
+  cycleHeads: Set<Runtype>;
 };
 
 export interface Runtype {
@@ -1988,7 +1990,7 @@ export class AnyOfDiscriminatedRuntype extends BaseRuntype {
 
     const baseName = AnyOfDiscriminatedRuntype.getSyntheticRefName(this.discriminator, key, unionHash);
     // "a-b" and "a_b" sanitize to the same name part: different variants get different names
-    const digestCtx: Hash256Context = { writer: new Hash256Writer(), active: new Map(), nextCycleId: 0 };
+    const digestCtx = newHash256Context(runtype);
     runtype.hash256(digestCtx);
     const digest = digestCtx.writer.digestHex();
     let syntheticRefName = baseName;
@@ -2075,6 +2077,9 @@ export class AnyOfDiscriminatedRuntype extends BaseRuntype {
       acc.push(s.hash(ctx));
     }
     return generateHashFromNumbers(acc);
+  }
+  hash256Children(): Runtype[] {
+    return [...this.schemas, ...Object.values(this.mapping)];
   }
   hash256(ctx: Hash256Context): void {
     ctx.writer.updateTag("anyOfDiscriminated");
@@ -2555,9 +2560,12 @@ export abstract class BaseRefRuntype extends BaseRuntype {
       return;
     }
 
-    const id = ctx.nextCycleId;
-    ctx.nextCycleId++;
-    ctx.active.set(to, id);
+    if (!ctx.cycleHeads.has(to)) {
+      // an alias that is not recursive is transparent
+      to.hash256(ctx);
+      return;
+    }
+    ctx.active.set(to, ctx.active.size);
     to.hash256(ctx);
     ctx.active.delete(to);
   }
@@ -2573,6 +2581,32 @@ export abstract class BaseRefRuntype extends BaseRuntype {
     const to = this.getNamedRuntypes()[this.refName];
     return to.reportDecodeError(ctx, input);
   }
+}
+
+function collectCycleHeads(runtype: Runtype, path: Set<Runtype>, heads: Set<Runtype>): void {
+  if (runtype instanceof BaseRefRuntype) {
+    const to = runtype.getNamedRuntypes()[runtype.refName];
+    if (path.has(to)) {
+      heads.add(to);
+      return;
+    }
+    path.add(to);
+    collectCycleHeads(to, path, heads);
+    path.delete(to);
+    return;
+  }
+  // (a discriminated union also hashes the variants of its mapping)
+  const children =
+    runtype instanceof AnyOfDiscriminatedRuntype ? runtype.hash256Children() : runtype.describeChildren();
+  for (const child of children) {
+    collectCycleHeads(child, path, heads);
+  }
+}
+
+function newHash256Context(root: Runtype): Hash256Context {
+  const cycleHeads = new Set<Runtype>();
+  collectCycleHeads(root, new Set(), cycleHeads);
+  return { writer: new Hash256Writer(), active: new Map(), cycleHeads };
 }
 
 const namedRuntypes: Record<string, Runtype> = {};
@@ -2710,11 +2744,7 @@ class ParserFromRuntype implements BeffParser<any> {
     return this._runtype.hash(ctx);
   }
   hash256(): string {
-    const ctx: Hash256Context = {
-      writer: new Hash256Writer(),
-      active: new Map(),
-      nextCycleId: 0,
-    };
+    const ctx = newHash256Context(this._runtype);
     ctx.writer.updateTag("beff-hash256-v1");
     this._runtype.hash256(ctx);
     return ctx.writer.digestHex();
